@@ -6,24 +6,51 @@ LEVEL = "model_checking"
 
 def run(ctx):
     q = ctx.quick
-    # ---- LIKE: patterns over {a, b, %, _} (thorough: also lists and escapes), all strings of the alphabet
-    like_consts = {} if q else {"LMaxP": 5, "LMaxS": 5}
+    # --replay: only the pipeline that produced the case (the LIKE bounds are recovered from the case)
+    rp = json.load(open(ctx.replay)) if ctx.replay else None
+    only = rp["engine"] if rp else None
+    if only == "like":
+        strs = rp["case"]["c"]["strs"]
+        n = max(len(x) for x in strs)
+        if "%" in strs:
+            run_like_ext(ctx, {"LMaxP": max(n, len(rp["case"]["c"]["toks"])), "LMaxS": n})
+        else:
+            run_like(ctx, {"LMaxP": max(n, len(rp["case"]["c"]["toks"])), "LMaxS": n})
+        return
+    if only is None:
+        run_like(ctx, {} if q else {"LMaxP": 5, "LMaxS": 5})
+        if not q:
+            run_like_ext(ctx, {"LMaxP": 3, "LMaxS": 3})
+    run_ops(ctx)
+
+
+LIKE_NT = lambda c: any(t in ("%", "_") or len(t) > 1 for t in c["c"]["toks"])
+
+
+def run_like(ctx, like_consts):
+    # ---- LIKE: patterns over {a, b, %, _}, all strings of the alphabet
     # the matcher of the pinned tree ("_" -> regex "?") must violate the property in the model as well
     ctx.model_check("like_dev_underscore", "MCLike", dict(like_consts, UseDev=True), ["DesignOK"], spec="Spec",
                     expect_violation="DesignOK", workers=2)
     fn_pipeline(ctx, "C39", "like", "GenLike", "TraceLike", consts=like_consts, trace_consts=like_consts,
                 crate="h_num", name="like", key=lambda c: c["c"]["pat"],
                 expected=lambda c: c["exp"]["matched"], observed=lambda o: o["r"]["direct"],
-                nontrivial=lambda c: any(t in ("%", "_") or len(t) > 1 for t in c["c"]["toks"]))
-    if not q:
-        ext = {"LTokens": {"a", "b", "%", "_", "[ab]", "[^a]", Tla('"\\\\%"'), Tla('"\\\\_"')},
-               "LAlphabet": {"a", "b", "%", "_"}, "LMaxP": 3, "LMaxS": 3}
-        fn_pipeline(ctx, "C39", "like", "GenLike", "TraceLike", consts=ext, trace_consts=ext,
-                    crate="h_num", name="like_ext", key=lambda c: c["c"]["pat"],
-                    expected=lambda c: c["exp"]["matched"], observed=lambda o: o["r"]["direct"],
-                    nontrivial=lambda c: any(t in ("%", "_") or len(t) > 1 for t in c["c"]["toks"]))
+                nontrivial=LIKE_NT)
+
+
+def run_like_ext(ctx, bounds):
+    # ---- LIKE with lists and escapes; the strings may contain % and _
+    ext = dict({"LTokens": {"a", "b", "%", "_", "[ab]", "[^a]", Tla('"\\\\%"'), Tla('"\\\\_"')},
+                "LAlphabet": {"a", "b", "%", "_"}}, **bounds)
+    fn_pipeline(ctx, "C39", "like", "GenLike", "TraceLike", consts=ext, trace_consts=ext,
+                crate="h_num", name="like_ext", key=lambda c: c["c"]["pat"],
+                expected=lambda c: c["exp"]["matched"], observed=lambda o: o["r"]["direct"], nontrivial=LIKE_NT)
+
+
+def run_ops(ctx):
+    q = ctx.quick
     # ---- operators: well formed clauses against the reference evaluator, malformed ones for termination
-    ops_consts = {"Opnds": Tla("OpndsQuick")} if q else {}
+    ops_consts = {"Opnds": Tla("OpndsQuick")} if q else {"ChainDepths": {2, 3, 40, 1000}}
     cases, verdicts = fn_pipeline(
         ctx, "C39", "ops", "GenOps", "TraceOps", consts=ops_consts, trace_consts=ops_consts, crate="h_num", name="ops",
         key=lambda c: c["c"]["els"], expected=lambda c: None,
@@ -51,12 +78,12 @@ def run(ctx):
         "accepted set is compared with the compositional pattern language. Non-trivial pattern: has a wildcard, list or escape. "
         "Operators: TLC enumerates one-element clauses (every operator x every pair of the %s operands incl. NULL, Booleans, "
         "five numeric types with out-of-range values, strings, present/missing event fields; Between/InList over triples), "
-        "nested clauses (And/Or/Not/Equals/IsNull over eight sub-elements, shared sub-elements, Not-chains of depth 40) and "
+        "nested clauses (And/Or/Not/Equals/IsNull over eight sub-elements, shared sub-elements, Not-chains up to depth %d) and "
         "malformed clauses accepted at creation (operand counts 0..4 for every operator, element index out of range, self "
         "reference, loops, attribute operands, undecodable operands, unsupported operators, empty clause); every clause runs "
         "through the real evaluate_where_clause; distinct by clause" % (
             4 if q else 5, "" if q else " plus lists [ab] [^a] and escapes up to length 3", 4 if q else 5,
-            "reduced set of" if q else "18"))
+            "reduced set of" if q else "18", 40 if q else 1000))
     ctx.assumptions += [
         "where Part 4 leaves a result open (NULL operand of a comparison/Between/InList/Like, ordering of Booleans or Strings, "
         "non-integer operands of bitwise operators, Cast) every admissible result is accepted",
